@@ -15,6 +15,10 @@
 (*  cswz  n t set parts a             r = vec<n,t>(swizzle / scalar args)  *)
 (*  cmat  kind C R C2 R2 t at a       r = mat<C,R,t>(...) column-major     *)
 (*  cqua  kind t at a                 r = qua<t>(...) listed w,x,y,z       *)
+(*  absent  (written by the driver, one per batch of accessors /           *)
+(*          constructor shapes that does not compile)  classified here:    *)
+(*          absent by design -> constrains nothing; a recorded hole in a   *)
+(*          family that otherwise exists -> known deviation; else bad      *)
 (***************************************************************************)
 EXTENDS GlmSwizzle, GlmCtor, TraceBase
 VARIABLE l
@@ -73,8 +77,11 @@ CMatV(ev) ==
                                    /\ CtorOK(ev.t, MatScalarSources(ev.C, ev.R), ev.at, ev.a, ev.r))
       [] ev.kind = "cols" -> VBool(Len(ev.a) = ev.C /\ Len(ev.at) = ev.C /\ (\A i \in 1..ev.C : Len(ev.a[i]) = ev.R)
                                    /\ CtorOK(ev.t, MatColSources(ev.C, ev.R), ev.at, ev.a, ev.r))
-      [] ev.kind = "mat"  -> VBool(Dim(ev.C2) /\ Dim(ev.R2) /\ Len(ev.a) = 1 /\ Len(ev.at) = 1 /\ Len(ev.a[1]) = ev.C2 * ev.R2
-                                   /\ CtorOK(ev.t, MatFromMatSources(ev.C, ev.R, ev.C2, ev.R2), ev.at, ev.a, ev.r))
+      [] ev.kind = "mat"  -> IF ~(Dim(ev.C2) /\ Dim(ev.R2) /\ Len(ev.a) = 1 /\ Len(ev.at) = 1 /\ Len(ev.a[1]) = ev.C2 * ev.R2) THEN VBad
+                             ELSE IF CtorOK(ev.t, MatFromMatSources(ev.C, ev.R, ev.C2, ev.R2), ev.at, ev.a, ev.r) THEN VOk
+                             ELSE IF <<ev.C, ev.R, ev.C2, ev.R2>> = <<4, 4, 4, 2>> /\ CtorOK(ev.t, KD_Mat4x4FromMat4x2Sources, ev.at, ev.a, ev.r)
+                                  THEN VKnown("KD-C17-mat4x4-from-mat4x2-ignores-columns-2-3")
+                             ELSE VBad
       [] OTHER -> VBad
 
 (* ---- quaternions ---- *)
@@ -87,6 +94,34 @@ CQuaV(ev) ==
                   /\ \A i \in 1..Len(lens) : Len(ev.a[i]) = lens[i]
                   /\ CtorOK(ev.t, QuaSources(ev.kind), ev.at, ev.a, ev.r))
 
+(* ---- compile census ---- *)
+AlignedQ == {"aligned_highp", "aligned_mediump", "aligned_lowp"}
+AllIn(seq, S) == \A k \in 1..Len(seq) : seq[k] \in S
+NoneIn(seq, S) == \A k \in 1..Len(seq) : seq[k] \notin S
+HasLetter(nm, c) == \E k \in 1..Len(nm) : nm[k] = c
+FreeHoles == {<<4, <<"x", "y", "z">> >>, <<3, <<"x", "y", "z", "z">> >>, <<4, <<"x", "y", "z", "z">> >>}
+AbsentSwz(ev) ==
+    IF ev.set \notin SetNames \/ Len(ev.names) = 0 THEN VBad
+    \* by design: vec1 declares no swizzle accessors; gtx/vec_swizzle has xyzw names only; GLM_FORCE_XYZW_ONLY removes rgba / stpq
+    ELSE IF ev.what = "swz" /\ ev.impl \in {"fn", "op"} /\ ev.sl = 1 THEN VSkip
+    ELSE IF ev.impl = "free" /\ ev.set # "xyzw" THEN VSkip
+    ELSE IF ev.cfg = "xyzw" /\ ev.set # "xyzw" THEN VSkip
+    \* holes in families that otherwise exist
+    ELSE IF ev.what = "swz" /\ ev.impl = "free" /\ (\A k \in 1..Len(ev.names) : <<ev.sl, ev.names[k]>> \in FreeHoles)
+        THEN VKnown("KD-C17-free-swizzle-missing")
+    ELSE IF ev.what = "swz" /\ ev.impl = "op" /\ ev.sl = 2 /\ ev.rl = 3 THEN VKnown("KD-C17-operator-swizzle-unusable")
+    ELSE IF ev.what = "swz" /\ ev.impl = "op" /\ ev.rl = 2 /\ AllIn(ev.qs, AlignedQ) /\ AllIn(ev.ts, {"u32"}) THEN VKnown("KD-C17-operator-swizzle-unusable")
+    ELSE IF ev.what = "swz" /\ ev.impl = "op" /\ AllIn(ev.qs, AlignedQ) /\ NoneIn(ev.ts, {"f32", "i32", "u32"}) THEN VKnown("KD-C17-operator-swizzle-unusable")
+    ELSE IF ev.what = "swzw" /\ ev.sl = 4 /\ ev.rl = 3 /\ (\A k \in 1..Len(ev.names) : HasLetter(ev.names[k], Letters(ev.set)[4]))
+        THEN VKnown("KD-C17-operator-three-letter-w-not-assignable")
+    ELSE VBad
+AbsentVec(ev) ==
+    IF ev.n = 4 /\ ev.parts = <<"s", "s", "s", "v1">> THEN VKnown("KD-C17-vec4-scalar-scalar-scalar-vec1-missing")
+    \* by design: the scalar / vec1 mixes are declared with vec<1, A, Q>, Q the qualifier of the result
+    ELSE IF ev.cfg \in {"fnx", "opx", "avx2x", "opgx"} /\ Len(ev.parts) >= 2 /\ AllIn(ev.parts, {"s", "v1"}) /\ ~AllIn(ev.parts, {"s"}) THEN VSkip
+    ELSE VBad
+AbsentV(ev) == CASE ev.what \in {"swz", "swzw"} -> AbsentSwz(ev) [] ev.what = "cvec" -> AbsentVec(ev) [] OTHER -> VBad
+
 Verdict(ev) ==
     CASE ev.op = "swz"  -> SwzReadV(ev)
       [] ev.op = "swzw" -> SwzWriteV(ev)
@@ -96,6 +131,7 @@ Verdict(ev) ==
       [] ev.op = "cswz" -> CSwzV(ev)
       [] ev.op = "cmat" -> CMatV(ev)
       [] ev.op = "cqua" -> CQuaV(ev)
+      [] ev.op = "absent" -> AbsentV(ev)
       [] OTHER -> VBad
 
 Init == l = 1 /\ RegInit
